@@ -279,11 +279,13 @@ def gen_tmpl():
     need(r"if\s*\(\s*priorityOfRule\s*>\s*priorityOfBestMatched\s*\)", body, "findTemplate: non-quiet '>' test")
     need(r"else\s+if\s*\(\s*priorityOfRule\s*==\s*priorityOfBestMatched\s*\)", body, "findTemplate: non-quiet '==' test")
     need(r"bestMatchedPattern\s*=\s*conflicts\[0\]\s*;", body, "findTemplate: conflicts[0]")
-    need(r"if\s*\(\s*!patterns->empty\(\)\s*&&\s*!\(\s*prevMatchPat\s*!=\s*0\s*&&\s*\(\s*prevPat\s*!=\s*0\s*&&\s*equals\(\s*\*prevPat\s*,\s*\*patterns\s*\)\s*\)\s*&&\s*"
-         r"prevMatchPat->getTemplate\(\)->getPriority\(\)\s*==\s*matchPat->getTemplate\(\)->getPriority\(\)\s*\)\s*\)", body,
-         "findTemplate: non-quiet same-text skip")
-    need(r"priorityOfRule\s*=\s*\(\s*matchScoreNoneValue\s*!=\s*priorityVal\s*\)\s*\?\s*priorityVal\s*:\s*XPath::getMatchScoreValue\(\s*score\s*\)\s*;", body,
-         "findTemplate: non-quiet run-time priority")
+    need(r"if\s*\(\s*!patterns->empty\(\)\s*&&\s*!\(\s*prevMatchPat\s*!=\s*0\s*&&\s*"
+         r"prevMatchPat->getTemplate\(\)\s*==\s*matchPat->getTemplate\(\)\s*\)\s*\)", body,
+         "findTemplate: non-quiet same-template skip")
+    need(r"const\s+double\s+priorityOfRule\s*=\s*matchPat->getPriorityOrDefault\(\)\s*;", body,
+         "findTemplate: non-quiet path ranks by the table priority")
+    if re.search(r"getMatchScoreValue\(\s*score\s*\)", body):
+        raise AnchorError("findTemplate: the run-time score is used as a priority again")
     need(r"prevPat\s*=\s*patterns\s*;\s*prevMatchPat\s*=\s*matchPat\s*;", body, "findTemplate: non-quiet prev update")
     need(r"addObjectIfNotFound\(\s*bestMatchedPattern\s*,\s*conflicts\s*,\s*nConflicts\s*\)\s*;\s*conflicts\[nConflicts\+\+\]\s*=\s*matchPat\s*;", body,
          "findTemplate: conflict array update")
